@@ -97,6 +97,25 @@ class Ctx:
         os.unlink(base + ".out")
         self.evaluations += len(events)
         self.lanes_used.add(lane)
+        if os.environ.get("VERIF_FUZZ_RESULTS") and os.environ.get("VERIF_REPO"):
+            # robustness test of the validators (tools/fuzzverdicts.sh, never for /repo itself): every 5th recorded result is
+            # replaced by wild values; the verdict operators must reject them, not overflow or crash
+            import random as _r
+            rr = _r.Random(int(os.environ["VERIF_FUZZ_RESULTS"]))
+            wild = [2147483647, -2147483647, 1 << 30, -(1 << 30), 123456789, 0, -1, 65536, 99999999]
+
+            def mangle(x):
+                if isinstance(x, bool):
+                    return x
+                if isinstance(x, int):
+                    return rr.choice(wild)
+                if isinstance(x, list):
+                    return [mangle(y) for y in x]
+                if isinstance(x, dict):
+                    return {k: (y if k in ("t", "a") else mangle(y)) for k, y in x.items()}
+                return x
+            for e in events[::5]:
+                e["res"] = mangle(e["res"])
         return events
 
     # ---------- Role C: TLC validates recorded events against the spec ----------
